@@ -43,16 +43,23 @@ class C19(Prop):
         max_fetch = rng.choice([page, 2 * page, page - 1, 1, 3 * page + 1, 1 << 20, 1 << 30, rng.range(1, 6 * page),
                                 18446744073709551615])
         nreg = rng.range(1, 4)
+        # now and then one file-backed mapping of more than 512 pages fetched in one piece (pagemap entries are
+        # then far from the start of the chunk), with a few modified pages beyond the 512th
+        big = rng.chance(1, 40)
+        if big:
+            page, nreg = 16, 1
+            chunk = rng.choice([None, page * 600, page * 1000, 1 << 20])
+            max_fetch = 1 << 30
         regions, addr = [], page * rng.range(1, 8)
         mem_segs, pm_bits = [], []
         for i in range(nreg):
             addr += page * rng.range(0, 3)
-            npages = rng.range(1, 6)
+            npages = rng.range(1, 6) if not big else rng.range(515, 640)
             ln = npages * page
-            if rng.chance(1, 8):
+            if rng.chance(1, 8) and not big:
                 ln += rng.range(1, page - 1)   # not a page multiple (never the case in a real listing)
-            readable = not rng.chance(1, 8)
-            backed = readable and rng.chance(2, 5)
+            readable = big or not rng.chance(1, 8)
+            backed = big or (readable and rng.chance(2, 5))
             reg = {"start": addr, "len": ln, "readable": readable, "backed": backed, "foff": 0, "file_hex": ""}
             view = bytearray(rng.bytes(ln))
             prev = regions[-1] if regions else None
@@ -87,7 +94,7 @@ class C19(Prop):
                 # process view: file content zero-filled, except privately modified pages
                 for p in range((ln + page - 1) // page):
                     lo, hi = p * page, min((p + 1) * page, ln)
-                    dirty = rng.chance(1, 3)
+                    dirty = rng.chance(1, 3) if not big else (p >= 512 and rng.chance(1, 12)) or rng.chance(1, 60)
                     if not dirty:
                         for k in range(lo, hi):
                             fo = foff + k
